@@ -186,6 +186,19 @@ PROPS = {
           '(4 clients x 6 operations, unique payloads) recorded at the API boundary and checked with porcupine against a register model. '
           'Non-trivial: a fault fired, a retry happened, or a concurrent history was checked.',
           nbatch=(8, 16), must_observe=['ops_faulted', 'resumptions', 'budget_exhaustions_reported', 'reads_verified', 'porcupine_histories_ok']),
+ 'C16': P('exploration',
+          'four monitors. (a) codec: 200 (quick) / 5000 (thorough) generated argument lists for a Func with parameters (int, string, float64, []int, '
+          'map, struct, *struct, interface{}, interface{}, Slice) -- boundary scalars, nil/empty/non-empty slices and maps, zero and nested structs, '
+          'nil and non-nil pointers, interface parameters holding int/string/struct/pointer/[]string/map/nil -- are encoded as the executor does and '
+          'decoded as a worker does (verif exports); every argument must come back equal (nil and empty slices/maps are identified, as gob does). '
+          '(b) end to end: 24 / 400 argument lists are run on a testsystem (every 4th locally); the Func builds its rows from a description of the '
+          'arguments it received, so the rows scanned show what the process running the tasks saw, including with a nested Result argument; they must '
+          'equal the description of what the driver passed. (c) unencodable arguments (chan, func, struct with only unexported fields, struct with a '
+          'chan) passed through an interface parameter: Run must return an error within the watchdog with zero Worker.Run RPCs observed by the '
+          'interposer. (d) FuncLocationsDiff over all pairs of location lists over a 3-letter alphabet up to length 4 (14641 pairs; thorough 5: '
+          '132496): nil iff equal, and the script (drop "- ", keep plain, insert "+ ") transforms the first list into the second; exhaustive. '
+          'Non-trivial: every case that completed.',
+          nbatch=(8, 16), must_observe=['arg_lists_roundtripped', 'e2e_invocations', 'e2e_with_result_argument', 'unencodable_rejected', 'location_list_pairs_diffed']),
 }
 
 META = {
@@ -292,4 +305,10 @@ META = {
     note='Uses exec.VerifFileStore/VerifMemoryStore/VerifNewRetryReader/VerifSetRetryPolicy. A Commit after a Write that itself reported an '
          'error is the caller\'s mistake and is not judged. Reads may fail in concurrent histories (entry discarded under the reader).',
     technique='fault injection with a model oracle; exhaustive failure-position enumeration; porcupine linearizability check'),
+ 'C16': dict(
+    text='Round-trip and end-to-end monitoring of invocation transport over a universe of argument lists, a prompt-failure check for '
+         'unencodable arguments observed at the RPC boundary, and an exhaustive differential check of the location diff.',
+    note='Interface-held pointer types are registered with gob as pointers only (gob names a type after its base type, so T and *T cannot both be '
+         'registered); nil vs empty slices/maps are not distinguished (gob semantics).',
+    technique='round-trip and end-to-end runtime monitoring; exhaustive enumeration for the diff'),
 }
